@@ -36,7 +36,11 @@ def entry_subst(field, lt, val="result"):
     return [
         ("match self.%s.entry(id) {" % field, "match map_entry(&self.%s, &id) {" % field, 1, "R17"),
         ("Entry::Occupied(mut entry) =>", "EntryKind::Occupied =>", 1, "R17"),
-        ("*entry.get() < %s" % val, "%s(map_get(&self.%s, &id), %s)" % (lt, field, val), 1, "R17"),
+        # the comparison of the stored fact with the new one, whatever its operator (derived Ord of the lattice enum = rank order)
+        ("*entry.get() < %s" % val, "%s(map_get(&self.%s, &id), %s)" % (lt, field, val), 0, "R17 derived PartialOrd `<` (if present)"),
+        ("*entry.get() <= %s" % val, "!%s(%s, map_get(&self.%s, &id))" % (lt, val, field), 0, "R17 derived PartialOrd `<=` (if present)"),
+        ("*entry.get() > %s" % val, "%s(%s, map_get(&self.%s, &id))" % (lt, val, field), 0, "R17 derived PartialOrd `>` (if present)"),
+        ("*entry.get() >= %s" % val, "!%s(map_get(&self.%s, &id), %s)" % (lt, field, val), 0, "R17 derived PartialOrd `>=` (if present)"),
         ("entry.insert(", "map_insert(&mut self.%s, id, " % field, 2, "R17"),
         ("Entry::Vacant(entry) =>", "EntryKind::Vacant =>", 1, "R17"),
     ]
